@@ -52,7 +52,7 @@ def _shrink(exe, script, timeout=8, budget=240):
     return mk(small)
 
 
-def cl_suite(profile, n_quick, n_thorough, variants_quick=("single", "multi"), variants_thorough=("single", "multi", "spin"),
+def cl_suite(profile, n_quick, n_thorough, variants_quick=("single", "checked"), variants_thorough=("single", "multi", "spin", "checked"),
              max_ops_quick=40, max_ops_thorough=120, nontrivial=None, rule=""):
     def run(ctx, search=False):
         quick = ctx.quick()
